@@ -931,7 +931,7 @@ def log_call(
 
         # Filter arguments to log, if necessary:
         if include_args is not None:
-            callargs = {k: callargs[k] for k in include_args}
+            callargs = {k: callargs[k] for k in include_args if k in callargs}
 
         with _start_action_with_fields(action_type, callargs) as ctx:
             result = wrapped_function(*args, **kwargs)
